@@ -144,6 +144,66 @@ def Ev.ok (F : List DG) : Ev → Prop
   | .clear => True
   | .remove _ _ _ => True
 
+instance (F : List DG) (e : Ev) : Decidable (e.ok F) := by
+  cases e <;> simp only [Ev.ok] <;> infer_instance
+
+/-! ### extension: a key that is re-used by a later datagram (known finding KF-C08-1)
+
+  The property only speaks about datagrams with different keys.  Real traffic re-uses a 16-bit identification; the
+  natural extension is: two datagrams may share a key if they do not overlap in time — the later one starts after the
+  earlier one was completed, and the earlier one is not heard of again once the later one has started (late
+  duplicates of the earlier one *before* that point are allowed).  `seqOK` checks this along the reference run. -/
+
+structure SeqSt where
+  σ : RefState := []
+  /-- datagrams seen so far -/
+  seen : List DG := []
+  /-- datagrams completed at least once -/
+  done : List DG := []
+  /-- datagrams whose key has been taken over by a later datagram -/
+  retired : List DG := []
+
+def seqStep (parse : UpperParse) (s : SeqSt) : Ev → Option SeqSt
+  | .frag d p ttl =>
+    if d ∈ s.retired then none else
+    let rivals := s.seen.filter (fun d' => d' != d && makeKey d'.hdr == makeKey d.hdr)
+    if rivals.all (fun d' => s.done.contains d') then
+      let (σ', o) := refStep parse s.σ (.frag d p ttl)
+      let completed := match o.res with
+        | some (.reassembled, _) => true
+        | some (.throwMalformed, _) => true
+        | _ => false
+      some { σ := σ', seen := d :: s.seen, done := if completed then d :: s.done else s.done,
+             retired := rivals ++ s.retired }
+    else none
+  | ev => some { s with σ := (refStep parse s.σ ev).1 }
+
+def seqOK (parse : UpperParse) : SeqSt → List Ev → Bool
+  | _, [] => true
+  | s, e :: es => match seqStep parse s e with
+    | some s' => seqOK parse s' es
+    | none => false
+
+/-- well-formedness of the events without any condition on keys -/
+def Ev.wfOnly : Ev → Prop
+  | .frag d p _ => d.wf ∧ p ∈ d.pieces
+  | .other pkt => notFrag pkt = true
+  | .clear => True
+  | .remove _ _ _ => True
+
+instance (e : Ev) : Decidable e.wfOnly := by
+  cases e <;> simp only [Ev.wfOnly] <;> infer_instance
+
+/-- the datagrams a history speaks about -/
+def dgramsOf : List Ev → List DG
+  | [] => []
+  | .frag d _ _ :: es => d :: dgramsOf es
+  | _ :: es => dgramsOf es
+
+/-- the excluded region of the extension: two different datagrams of the history share a key -/
+def keyReused (evs : List Ev) : Bool :=
+  (dgramsOf evs).any (fun d => (dgramsOf evs).any (fun d' => d != d' && makeKey d.hdr == makeKey d'.hdr))
+
 structure Family (F : List DG) : Prop where
   wf : ∀ d ∈ F, d.wf
   keys : ∀ d ∈ F, ∀ d' ∈ F, makeKey d.hdr = makeKey d'.hdr → d = d'
